@@ -10,7 +10,7 @@ import warnings
 
 LEVEL = "model_checking"
 RULE = ("Sequential: all ordered trees with <= N nodes over node kinds {extract(wc, rc) x raises?, extract_child(for_task) x "
-        "raises?, extract_outermost(wc, rc) x raises?, fill_context}; each node is executed from inside the unwrap hook of its "
+        "raises?, extract_outermost(wc, rc) x raises?, fill_context (elaborate_context hook), fill_context of a generator-based manager, exiting or not (unwrap_context_generator hook; for the exiting one the glue performs a nested frame lookup first)}; each node is executed from inside the unwrap hook of its "
         "parent (the root from outside any extraction); before/after every child the hook records what is visible through the "
         "public API: (contexts present on a probe frame, extract_child(for_task=True) populated) or 'outside' when extract_child "
         "refuses. Reference model: a stack of option pairs (state = stack contents, transition = one node entry/exit). "
@@ -144,6 +144,17 @@ def world():
             elif kind == "F":
                 c = Context(obj=FW(rec), is_async=False)
                 stackscope.fill_context(c)
+            elif kind == "G":
+                # a generator-based manager whose function has an unwrap_context_generator hook; when the context is
+                # exiting the contextlib glue has to look the manager's frame up by itself before it can call the hook
+                mgr = gcm_fn()
+                mgr.__enter__()
+                tl.rec = rec
+                try:
+                    stackscope.fill_context(Context(obj=mgr, is_async=False, is_exiting=node[1]))
+                finally:
+                    tl.rec = None
+                    mgr.__exit__(None, None, None)
             else:
                 raise AssertionError(kind)
 
@@ -168,6 +179,18 @@ def world():
         if node.raises:
             raise Boom("hook raises")
         return get_probe()
+
+    import contextlib
+
+    @contextlib.contextmanager
+    def gcm_fn():
+        yield 1
+
+    @stackscope.unwrap_context_generator.register(gcm_fn)
+    def _ucg(frame, context):
+        rec = tl.rec
+        rec["log"].append(("ucg", see(rec)))
+        return None
 
     @stackscope.elaborate_context.register(FW)
     def _elab_fw(mgr, context):
@@ -229,6 +252,13 @@ def reference(script):
                 stack.append((True, False))
                 log.append(("fill", top()))
                 stack.pop()
+        elif kind == "G":
+            if stack:
+                log.append(("ucg", top()))
+            else:
+                stack.append((True, False))
+                log.append(("ucg", top()))
+                stack.pop()
     log.append(("top", top()))
     children(script)
     return log, states, ntrans[0]
@@ -246,6 +276,7 @@ def node_kinds(tier):
         ks += [("C", False, False), ("C", True, False), ("C", True, True)]
         ks += [("O", False, True, False), ("O", True, False, True)]
         ks.append(("F",))
+        ks.append(("G", True))
     else:
         for wc, rc in opts:
             ks.append(("E", wc, rc, False))
@@ -253,6 +284,7 @@ def node_kinds(tier):
         ks += [("C", False, False), ("C", True, False), ("C", True, True)]
         ks += [("O", False, True, False), ("O", True, False, True)]
         ks.append(("F",))
+        ks += [("G", False), ("G", True)]
     return ks
 
 
@@ -263,14 +295,14 @@ def forests(n, kinds):
         return
     for first_size in range(1, n + 1):
         for k in kinds:
-            if k[0] == "F":
+            if k[0] in ("F", "G"):
                 if first_size != 1:
                     continue
                 subs = [[]]
             else:
                 subs = forests(first_size - 1, kinds)
             for sub in subs:
-                first = list(k) + [sub] if k[0] != "F" else ["F"]
+                first = list(k) + [sub] if k[0] not in ("F", "G") else list(k)
                 for rest in forests(n - first_size, kinds):
                     yield [first] + rest
 
